@@ -289,7 +289,7 @@ class Interp:
                     else:
                         try:
                             del base[key]
-                        except (KeyError, IndexError) as e:
+                        except (KeyError, IndexError, TypeError) as e:
                             raise Raised(type(e).__name__)
                 elif isinstance(t, ast.Name):
                     env.pop(t.id, None)
